@@ -89,7 +89,10 @@ def check_step(ctx, step, res, ref, spec_lines, spec_meta):
         if not (finite(d) and finite(ref)):
             return "nonfinite-skipped"
         F = fmt_of_dtype(d.dtype)
-        k = next((o for o in step.operands if isinstance(o, Fraction)), Fraction(1))
+        k = next((o for o in step.operands if isinstance(o, Fraction)), None)
+        if k is None:
+            kt = next((o for o in step.operands if isinstance(o, torch.Tensor) and not oc.is_q(o) and o.numel() == 1), None)
+            k = Fraction(float(kt)) if kt is not None else Fraction(1)
         Fc = F
         if step.name == "to":   # the coarser of source and target format bounds the difference
             src = fmt_of_dtype(step.operands[0].dtype)
